@@ -249,6 +249,9 @@ type blockSpec struct {
 	// SameStream: all writers share stream 1; only writer 0 ever sets (and clears) the
 	// write deadline, so another writer queued behind its failing write goes on to succeed.
 	SameStream bool
+	// Rearm: another goroutine clears the write deadline of the stream in the very instant it
+	// expires under a blocked write (a write either fails with nothing sent or is delivered)
+	Rearm bool
 }
 
 func blockScenario(spec *blockSpec) *Scenario {
@@ -261,6 +264,9 @@ func blockScenario(spec *blockSpec) *Scenario {
 				m.closeFailedTransports()
 				m.CloseBoth()
 				return
+			}
+			if spec.Rearm {
+				m.S.YieldAfterSelect = true
 			}
 			mu := &m.mu
 			a := m.As[0]
@@ -310,8 +316,15 @@ func blockScenario(spec *blockSpec) *Scenario {
 							if w == 0 && i == 2 {
 								_ = sa.SetWriteDeadline(time.Now().Add(400 * time.Millisecond))
 							}
-						} else if i == 3 {
+						} else if (i == 3 && !spec.Rearm) || (i == 4 && spec.Rearm) {
+							// (with a single writer it is the fifth write that finds the window closed)
 							_ = sa.SetWriteDeadline(time.Now().Add(400 * time.Millisecond))
+							if spec.Rearm {
+								readers = append(readers, m.Go(fmt.Sprintf("rearm%d", sid), func() {
+									m.Sleep(400 * time.Millisecond)
+									_ = sa.SetWriteDeadline(time.Time{})
+								}))
+							}
 						} else {
 							_ = sa.SetWriteDeadline(time.Time{})
 						}
@@ -561,6 +574,14 @@ func propC18(j *Job) {
 				j.Explore(fmt.Sprintf("BW/%s/w%d/U%v/ppi%d", mode.Name, nw, v.u, v.ppi), blockScenario(spec), Budget{D: d}, nil)
 				if j.capped() {
 					return
+				}
+				if nw == 1 && (vi == 0 || j.Thorough()) {
+					rs := *spec
+					rs.Rearm = true
+					j.Explore(fmt.Sprintf("BW/%s/w%d/U%v/ppi%d/rearm", mode.Name, nw, v.u, v.ppi), blockScenario(&rs), Budget{D: 1}, nil)
+					if j.capped() {
+						return
+					}
 				}
 				if nw >= 2 && (j.Thorough() || (nw == 2 && vi == 0)) {
 					ss := *spec
